@@ -1066,3 +1066,103 @@ func ruleAbsentNotStatic(c *Ctx, r *Report) {
 		})
 	}
 }
+
+// ---------------------------------------------------------------------------
+// C20: R-FLAG-LIVE — added with fix F45.  "Runs directives at their position": a directive of the text being
+// loaded may set a flag that governs how the rest of the text is read.  The parser reads the operator table
+// through the VM's own map, but what NewParser copies BY VALUE from the VM (today: double_quotes) goes stale
+// with the first directive that sets it.  For every field of Parser that NewParser initialises with the value
+// of a VM field of a non-reference type, every clause-reading loop (a Parser.Term call inside a CFG cycle)
+// stores the VM's current value into that field inside the loop, before the clause is parsed.
+func ruleFlagLive(c *Ctx, r *Report) {
+	const rule = "R-FLAG-LIVE"
+	desc := "what the parser copies by value from the VM is refreshed before each clause of a text is read"
+	term := c.method("Parser", "Term")
+	np := c.fn("NewParser")
+	if term == nil || np == nil {
+		r.undecided(rule, "anchor:NewParser/Parser.Term", "-", "locate NewParser and Parser.Term", "not found")
+		return
+	}
+	// Parser field <- VM field copies in NewParser
+	copies := map[string]string{}
+	eachInstr(np, func(in ssa.Instruction) {
+		st, ok := in.(*ssa.Store)
+		if !ok {
+			return
+		}
+		fa, ok := st.Addr.(*ssa.FieldAddr)
+		if !ok || !isEngNamed(deref(fa.X.Type()), "Parser") {
+			return
+		}
+		ld, ok := st.Val.(*ssa.UnOp)
+		if !ok || ld.Op != token.MUL {
+			return
+		}
+		src, ok := ld.X.(*ssa.FieldAddr)
+		if !ok || !isEngNamed(deref(src.X.Type()), "VM") {
+			return
+		}
+		switch st.Val.Type().Underlying().(type) {
+		case *types.Map, *types.Pointer, *types.Slice, *types.Chan, *types.Interface, *types.Signature:
+			return // shared with the VM, not copied
+		}
+		copies[fieldName(fa)] = fieldName(src)
+	})
+	var fields []string
+	for f := range copies {
+		fields = append(fields, f)
+	}
+	sort.Strings(fields)
+	loops := 0
+	for _, fn := range c.LibFuncs() {
+		if funcPkg(fn) != c.Engine {
+			continue
+		}
+		eachInstr(fn, func(in ssa.Instruction) {
+			call, ok := in.(*ssa.Call)
+			if !ok || call.Call.StaticCallee() != term || !reachableFromSucc(call.Block(), call.Block()) {
+				return
+			}
+			loops++
+			if len(fields) == 0 {
+				r.ok(rule, fname(fn)+"/Parser.Term-in-loop", c.at(in), desc, "NewParser copies nothing by value from the VM", false)
+				return
+			}
+			for _, f := range fields {
+				key := fmt.Sprintf("%s/Parser.Term-in-loop/%s", fname(fn), f)
+				fresh := false
+				eachInstr(fn, func(x ssa.Instruction) {
+					st, ok := x.(*ssa.Store)
+					if !ok {
+						return
+					}
+					fa, ok := st.Addr.(*ssa.FieldAddr)
+					if !ok || !isEngNamed(deref(fa.X.Type()), "Parser") || fieldName(fa) != f {
+						return
+					}
+					ld, ok := st.Val.(*ssa.UnOp)
+					if !ok || ld.Op != token.MUL {
+						return
+					}
+					src, ok := ld.X.(*ssa.FieldAddr)
+					if !ok || !isEngNamed(deref(src.X.Type()), "VM") || fieldName(src) != copies[f] {
+						return
+					}
+					sb, cb := st.Block(), call.Block()
+					if (sb == cb && instrIndex(st) < instrIndex(call) && instrIndex(ld) < instrIndex(call)) || (sb != cb && sb.Dominates(cb) && reachableFromSucc(sb, sb)) {
+						fresh = true
+					}
+				})
+				if fresh {
+					r.ok(rule, key, c.at(in), desc, "Parser."+f+" = VM."+copies[f]+" in the loop, before the clause is parsed", true)
+				} else {
+					r.bad(rule, key, c.at(in), desc, "NewParser copies VM."+copies[f]+" into Parser."+f+" and the loop never refreshes it: a directive of the text that sets the flag has no effect on the clauses after it")
+				}
+			}
+		})
+	}
+	if loops == 0 {
+		r.bad(rule, "scan/reading-loop", "-", desc, "no loop that parses clause after clause found")
+	}
+	r.analysed(rule, fmt.Sprintf("%d clause-reading loops, by-value copies in NewParser: %v", loops, fields))
+}
